@@ -149,6 +149,17 @@ def depth_ok(f, depth=0):
     return f.op in ('ref', 'attr', 'closure', 'partial') or (depth > 0 and ((f.op == 'unknown' and f.args == ('keyerror',)) or (f.op == 'const' and f.args[0] is None)))
 
 
+class _UnrolledStep(ast.stmt):
+    """one element of a `for` loop over a short display that is written out (FuncGraph.st_For)"""
+    _fields = ()
+
+    def __init__(self, target, item, body, origin):
+        super().__init__()
+        self.target, self.item, self.body, self.origin = target, item, body, origin
+        self.lineno, self.col_offset = getattr(origin, 'lineno', 0), getattr(origin, 'col_offset', 0)
+        self.end_lineno, self.end_col_offset = getattr(origin, 'end_lineno', 0), getattr(origin, 'end_col_offset', 0)
+
+
 FALL = T('fall')
 RAISE = T('raise')
 UNDEF = T('undef')
@@ -338,6 +349,13 @@ class FuncGraph:
             kind = r[0]
             if kind == 'term':       # return / raise / break / continue
                 return None, r[1]
+            if kind == 'seq':        # (env after the statement, returns so far with FALL leaves = "goes on")
+                _, env_b, ret_b = r
+                if env_b is not env:
+                    env.clear()
+                    env.update(env_b)
+                rest_env, rest_ret = self.block(stmts[i + 1:], env)
+                return rest_env, subst_fall(ret_b, rest_ret)
             if kind == 'branch':     # (cond, env_t, ret_t, env_f, ret_f)
                 _, cond, env_t, ret_t, env_f, ret_f = r
                 merged = self.merge(cond, env_t, env_f)
@@ -746,17 +764,56 @@ class FuncGraph:
             return None
         return ('branch', self.nondet(s, 'loop-return'), None, ret, env, FALL)
 
+    def st__UnrolledStep(self, s, env):
+        self._assign_display(s.target, s.item, env, s.origin)
+        env_b, ret_b = self.block(s.body, env)
+        if env_b is None:
+            return ('term', ret_b)
+        if ret_b is FALL:
+            return None
+        return ('seq', env_b, ret_b)
+
     def st_For(self, s, env):
         # `for step in ((f, a), (g, b)): ...` over a short literal display is the body written out once per element
         it = self.expr(s.iter, env)
-        simple = not s.orelse and not any(isinstance(n, (ast.Break, ast.Continue, ast.Return, ast.Yield, ast.YieldFrom)) for b in s.body for n in ast.walk(b))
+        # search loop over a short display:  for x in (a, b, c): if test(x): break   [else: <not found>]   is   if test(a): x = a  elif test(b): x = b ... else: <not found>
+        if it.op in ('tuple', 'list') and 1 <= len(it.args[0]) <= 6 and not any(x.op == 'star' for x in it.args[0]) and not self._loops and len(s.body) == 1 \
+                and isinstance(s.body[0], ast.If) and not s.body[0].orelse and len(s.body[0].body) == 1 and isinstance(s.body[0].body[0], ast.Break) \
+                and not any(isinstance(n, (ast.Break, ast.Continue, ast.Return)) for n in ast.walk(s.body[0].test)):
+            items, test = list(it.args[0]), s.body[0].test
+
+            def search(i, env_):
+                if i == len(items):
+                    return self.block(s.orelse, env_) if s.orelse else (env_, FALL)
+                self._assign_display(s.target, items[i], env_, s)
+                c = self.expr(test, env_)
+                if c.op == 'const':
+                    return (env_, FALL) if c.args[0] else search(i + 1, env_)
+                et, ef = dict(env_), dict(env_)
+                self._guards.append((c, False))
+                try:
+                    env_f, ret_f = search(i + 1, ef)
+                finally:
+                    self._guards.pop()
+                merged = self.merge(c, et, env_f)
+                return merged, (FALL if ret_f is FALL else self.mk('gamma', (c, FALL, ret_f), s))
+            env_out, ret_out = search(0, env)
+            if env_out is None:
+                return ('term', ret_out)
+            if env_out is not env:
+                env.clear()
+                env.update(env_out)
+            return None if ret_out is FALL else ('seq', env, ret_out)
+        simple = not s.orelse and not any(isinstance(n, (ast.Break, ast.Continue, ast.Yield, ast.YieldFrom)) for b in s.body for n in ast.walk(b))
         if simple and it.op in ('tuple', 'list') and 1 <= len(it.args[0]) <= 6 and not any(x.op == 'star' for x in it.args[0]) and not self._loops:
-            for item in it.args[0]:
-                self._assign_display(s.target, item, env, s)
-                env_b, ret_b = self.block(s.body, env)
-                if env_b is None:
-                    return ('term', ret_b)
-            return None
+            # (a body that returns on some paths is fine: the remaining elements are what follows on the other paths)
+            steps = [_UnrolledStep(s.target, item, s.body, s) for item in it.args[0]]
+            env_b, ret_b = self.block(steps, env)
+            if env_b is None:
+                return ('term', ret_b)
+            if ret_b is FALL:
+                return None
+            return ('seq', env_b, ret_b)
         return self._loop(s, env, 'for', it)
 
     def st_While(self, s, env):
@@ -1337,6 +1394,18 @@ class FuncGraph:
             j = joined(args[0])
             if j is not None:
                 return j
+        if lib == 'numpy.einsum' and plain and not kws and len(args) == 2 and args[0].op == 'const' and isinstance(args[0].args[0], str) and '->' in args[0].args[0]:
+            # einsum('ftd->fdt', x) only reorders axes: np.transpose(x, (0, 2, 1)); '...ab->...ba' is swapaxes(x, -1, -2)
+            lhs, rhs = args[0].args[0].replace(' ', '').split('->')
+            if ',' not in lhs and '.' not in lhs and len(set(lhs)) == len(lhs) and sorted(lhs) == sorted(rhs) and lhs != rhs:
+                return self._libcall('numpy.transpose', (args[1], self.mk('tuple', (tuple(const(lhs.index(ch), e, self.fn) for ch in rhs),), e)), e)
+            if lhs.startswith('...') and rhs.startswith('...') and len(lhs) == 5 and lhs[3] != lhs[4] and rhs[3:] == lhs[4] + lhs[3]:
+                return self._libcall('numpy.swapaxes', (args[1], const(-1, e, self.fn), const(-2, e, self.fn)), e)
+        if f.op == 'ref' and f.args[0] == ('builtin', 'range') and plain and not kws and len(args) == 1 and args[0].op == 'call' and args[0].args[0].op == 'ref' \
+                and args[0].args[0].args[0] == ('builtin', 'len') and len(args[0].args[1]) == 1:
+            inner = args[0].args[1][0]
+            if inner.op == 'call' and inner.args[0].op == 'ref' and inner.args[0].args[0] == ('builtin', 'range') and len(inner.args[1]) == 1 and not inner.args[2]:
+                return inner          # range(len(range(n))) runs as often as range(n)
         if f.op == 'ref' and f.args[0] == ('builtin', 'map') and plain and not kws and len(args) >= 2 and all(a.op in ('tuple', 'list') for a in args[1:]) \
                 and len({len(a.args[0]) for a in args[1:]}) == 1 and 1 <= len(args[1].args[0]) <= 6 and not any(x.op == 'star' for a in args[1:] for x in a.args[0]):
             # map(f, (a, b)) is (f(a), f(b))
@@ -1863,7 +1932,7 @@ class FuncGraph:
                 return self.mk('binop', ('Sub', a, b.args[1]), e)
         if isinstance(e.op, ast.Mult):
             # a[..., :, None] * b[..., None, :]  is the outer product einsum('...d,...D->...dD', a, b)
-            ka, kb = self._outer_kind(a), self._outer_kind(b)
+            ka, kb = self._outer_kind_conj(a, e), self._outer_kind_conj(b, e)
             if ka is not None and kb is not None and {ka[0], kb[0]} == {'col', 'row'}:
                 col, row = (ka[1], kb[1]) if ka[0] == 'col' else (kb[1], ka[1])
                 return self._libcall('numpy.einsum', (const('...d,...D->...dD', e, self.fn), col, row), e)
@@ -1896,6 +1965,13 @@ class FuncGraph:
         if not (base.op == 'binop' and base.args[0] == 'MatMult'):
             return None
         m, v = base.args[1], base.args[2]
+        def conj_inside(t):
+            # conj(v[..., None, :]) is conj(v)[..., None, :]
+            if t.op == 'call' and not t.args[2] and len(t.args[1]) == 1 and t.args[0].op == 'ref' and isinstance(t.args[0].args[0], Lib) and \
+                    t.args[0].args[0].dotted in ('numpy.conj', 'numpy.conjugate') and t.args[1][0].op == 'sub':
+                return self.mk('sub', (self._libcall('numpy.conj', (t.args[1][0].args[0],), e), t.args[1][0].args[1]), e)
+            return t
+        m, v = conj_inside(m), conj_inside(v)
         if re.fullmatch(r'(E|:+)0:', self._index_kinds(idx)) and m.op == 'sub' and re.fullmatch(r'(E|:+)N:', self._index_kinds(m.args[1])):
             # (v[..., None, :] @ M)[..., 0, :]  ->  einsum('...d,...dD->...D', v, M): the row vector times the matrix
             return self._libcall('numpy.einsum', (const('...d,...dD->...D', e, self.fn), m.args[0], v), e)
@@ -1904,6 +1980,16 @@ class FuncGraph:
         if v.op != 'sub' or not re.fullmatch(r'(E|:+)N', self._index_kinds(v.args[1])):
             return None
         return self._libcall('numpy.einsum', (const('...dD,...D->...d', e, self.fn), m, v.args[0]), e)
+
+    def _outer_kind_conj(self, t, e):
+        """_outer_kind, also below a conjugation: conj(x[..., None, :]) -> ('row', conj(x))"""
+        k = self._outer_kind(t)
+        if k is None and t.op == 'call' and not t.args[2] and len(t.args[1]) == 1 and t.args[0].op == 'ref' and \
+                isinstance(t.args[0].args[0], Lib) and t.args[0].args[0].dotted in ('numpy.conj', 'numpy.conjugate'):
+            k = self._outer_kind(t.args[1][0])
+            if k is not None:
+                return k[0], self._libcall('numpy.conj', (k[1],), e)
+        return k
 
     @staticmethod
     def _outer_kind(t):
@@ -1984,6 +2070,12 @@ class FuncGraph:
             lo2, hi2 = neg(idx.args[0]), neg(idx.args[1])
             if lo2 is not idx.args[0] or hi2 is not idx.args[1]:
                 idx = self.mk('slice', (lo2, hi2, idx.args[2]), idx.node)
+        if base.op == 'call' and not base.args[2] and (
+                (base.args[0].op == 'ref' and isinstance(base.args[0].args[0], Lib) and base.args[0].args[0].dotted in ('numpy.conj', 'numpy.conjugate') and len(base.args[1]) == 1) or
+                (base.args[0].op == 'attr' and base.args[0].args[1] in ('conj', 'conjugate') and not base.args[1])):
+            # conj(x)[idx] is conj(x[idx]): the conjugation is kept outermost, where the contraction rules look for it
+            inner = base.args[1][0] if base.args[1] else base.args[0].args[0]
+            return self._libcall('numpy.conj', (self.mk('sub', (inner, idx), e),), e)
         if idx.op == 'const' and isinstance(idx.args[0], str) and base.op == 'gamma':
             # (d1 if c else d2)['key'] with dict displays: d1['key'] if c else d2['key']
             def pick(b, depth=0):
